@@ -395,7 +395,7 @@ def _(c):
     c.ensures(
         "post.startup_wait_bounded",
         lambda fx: all(
-            [q[2][0] for q in fx[: fx.index(r)] if q[0] == "timeout.armed"] == [ezsp.NETWORK_COORDINATOR_STARTUP_RESET_WAIT]
+            [q[2][0] for q in fx[: pos(fx, r)] if q[0] == "timeout.armed"] == [ezsp.NETWORK_COORDINATOR_STARTUP_RESET_WAIT]
             for r in fx
             if r[0] == "await" and r[1] == "gw.wait_for_startup_reset"
         ),
@@ -433,3 +433,8 @@ def _native_default_response(self_, args, kwargs):
 
 
 _REG.contracts["bellows.ezsp.EZSP._command"].native_default = _native_default_response
+
+
+def pos(fx, r):
+    """position of the record r itself (identity, not equality) in the effects list"""
+    return [i for i, q in enumerate(fx) if q is r][0]
